@@ -281,7 +281,14 @@ retry_fetch_lv:
 
         // skip callback. will called in findnext
         // expception: if start=end, findnext does not call cb, so need cb here
-        if (range_is_one_point) {
+        // the same holds if start and end continue in the same (not existing) next layer:
+        // findnext takes the callback range for empty, but a key of the range would be
+        // inserted into this border.
+        bool range_is_in_missing_layer = cmp_to_end == 0
+                                         && ctx->get_end_point() == scan_endpoint::INCLUSIVE
+                                         && key_tup.get_key_length() > sizeof(key_slice_type)
+                                         && key_tup == ctx->get_end_tuple(0);
+        if (range_is_one_point || range_is_in_missing_layer) {
             if (bnv_cb(target_border->get_version_ptr(), v_at_fetch_lv)) { return status::WARN_ABORTED_BY_USER; }
         }
 
